@@ -39,7 +39,7 @@ func (this *OneWayTcpClient) zzCanarySend(p pack.Pack) error {
 func runC06(p *core.Program, r *core.Report) {
 	r.Explanation = "Structural necessary conditions for the one-way TCP client (net/oneway). Guard: the connection and its buffered writer are shared by direct senders and the background drain; a lock-region dataflow (go/cfg) with the package-level send mutex as the lock computes, for every method, whether the mutex is held at each use of conn/wr and at each call of a method that uses them; every such use must be under the mutex (the constructor runs before publication). Single writer: bytes reach the buffered writer only in send(), which writes the whole frame buffer in one loop, and only Flush() flushes. Close on error: every caller that gets an error from send() reaches Close() before it continues, Close() forgets the connection, send() reconnects when there is none and Connect() replaces the writer together with the connection. Error visibility: a function with a named error result and a deferred recover assigns the error in the handler (otherwise a panic in the send path is reported as success). FIFO: queue mode enqueues at the tail (Queue.Put) and the drain takes from the head; exactly one drain goroutine is started, in the singleton constructor. License in effect: the per-send options are applied to a fresh option struct on every send and the header hashes the per-send license when non-empty, else the client's (shared with C05.frame; the remaining frame layout is C05)."
 	r.NotDecided = []string{"linearisation of concurrent sends, at-most-once delivery, loss accounting", "behaviour at every fault point (peer closes before/between/in the middle of frames)"}
-	r.Rule("C06.guard", "conn/wr are used only with the send mutex held (or before the client is published)", 10)
+	r.Rule("C06.guard", "conn/wr are used only with the send mutex held (or before the client is published)", 8)
 	r.Rule("C06.single-writer", "only send() writes to the buffered writer (whole frame in one loop); only Flush() flushes", 2)
 	r.Rule("C06.close-on-error", "after a failed send the caller closes the connection; Close forgets it; send reconnects; Connect replaces conn and writer together", 6)
 	r.Rule("C06.error-visible", "deferred recover in a function with a named error result assigns the error", 1)
@@ -60,12 +60,35 @@ func runC06(p *core.Program, r *core.Report) {
 	}
 	t := tn.Type().(*types.Named)
 	tl := locks.AnalyzeWith(p, t, lockObj)
-	// methods that use conn/wr directly
-	uses := map[*types.Func]bool{}
+	// needs[f]: calling f requires the caller to hold the send mutex, because f touches conn/wr (or calls
+	// something that does) at a point where f itself does not hold it. A method that takes the mutex
+	// around its own accesses (Lock ... defer Unlock) needs nothing from its callers. Fixpoint over
+	// same-receiver calls; why[f] names the innermost unprotected site.
+	needs := map[*types.Func]bool{}
+	why := map[*types.Func]string{}
+	byObj := map[*types.Func]*locks.FuncLocks{}
 	for _, fl := range tl.Order {
+		byObj[fl.FI.Obj] = fl
 		for _, ac := range fl.Accesses {
-			if ac.Field == "conn" || ac.Field == "wr" {
-				uses[fl.FI.Obj] = true
+			if (ac.Field == "conn" || ac.Field == "wr") && ac.Held != locks.Yes && !needs[fl.FI.Obj] {
+				needs[fl.FI.Obj] = true
+				why[fl.FI.Obj] = fl.FI.Obj.Name() + " uses " + ac.Field
+			}
+		}
+	}
+	for changed := true; changed; {
+		changed = false
+		for _, fl := range tl.Order {
+			if needs[fl.FI.Obj] {
+				continue
+			}
+			for _, c := range fl.Calls {
+				if needs[c.Callee] && c.Held != locks.Yes {
+					needs[fl.FI.Obj] = true
+					why[fl.FI.Obj] = fl.FI.Obj.Name() + " -> " + why[c.Callee]
+					changed = true
+					break
+				}
 			}
 		}
 	}
@@ -76,10 +99,12 @@ func runC06(p *core.Program, r *core.Report) {
 		if len(fl.Unpaired) > 0 {
 			r.Viol("C06.guard", mname+" lock pairing", pos, strings.Join(fl.Unpaired, "; "))
 		}
-		// call sites of users
+		// roots: exported methods and methods nobody on the same receiver calls (the drain goroutine);
+		// an unexported helper with callers passes its requirement up (needs[]) and is judged there
+		root := fl.Exported || !hasCaller(tl, fl.FI.Obj)
 		seen := map[string]bool{}
 		for _, c := range fl.Calls {
-			if !uses[c.Callee] {
+			if !needs[c.Callee] {
 				continue
 			}
 			key := mname + " -> " + c.Callee.Name()
@@ -90,17 +115,26 @@ func runC06(p *core.Program, r *core.Report) {
 				seen[key] = true
 				continue
 			}
-			// unexported helpers entered with the lock held everywhere are fine; an unexported helper with
-			// same-receiver callers is attributed to those callers (reported at their call sites)
-			if fl.EntryHeld {
+			if !root {
 				continue
 			}
-
 			key += " (send mutex not held)"
 			if !seen[key] {
-				r.Viol("C06.guard", key, p.Pos(c.Pos), c.Callee.Name()+" uses the shared connection/buffered writer, and this call is made without the send mutex: it can run concurrently with a direct send (two writers on one bufio.Writer, or Connect replacing the writer under a writer): interleaved or torn frames")
+				r.Viol("C06.guard", key, p.Pos(c.Pos), why[c.Callee]+" (the shared connection/buffered writer), and this call is made without the send mutex: it can run concurrently with a direct send (two writers on one bufio.Writer, or Connect replacing the writer under a writer): interleaved or torn frames")
 			}
 			seen[key] = true
+		}
+		// a root that touches conn/wr itself without the mutex
+		if root && name != "Connect" && name != "Close" && name != "Flush" && name != "send" {
+			for _, ac := range fl.Accesses {
+				if (ac.Field == "conn" || ac.Field == "wr") && ac.Held != locks.Yes {
+					key := mname + " uses " + ac.Field + " (send mutex not held)"
+					if !seen[key] {
+						r.Viol("C06.guard", key, p.Pos(ac.Pos), "the shared "+ac.Field+" is used without the send mutex")
+					}
+					seen[key] = true
+				}
+			}
 		}
 	}
 	// the constructor path (before publication) is exempt: calls from package functions are not in tl.Calls.
